@@ -1153,6 +1153,29 @@ def rule_r8(chk, prog):
                     continue
                 n += 1
                 verdict, why = _unescaped_source(m, f, c.func.value, 0, set())
+                if verdict == 'unescaped':
+                    # ... but was it un-escaped before it was cut?
+                    for u in ast.walk(c.func.value):
+                        if isinstance(u, ast.Call) and isinstance(
+                                u.func, ast.Attribute) and \
+                                u.func.attr == 'replace' and len(
+                                    u.args) == 2 and is_const(
+                                        u.args[0], '""') and is_const(
+                                            u.args[1], '"'):
+                            late = _cut_before_unescape(m, f, u.func.value,
+                                                        0, set())
+                            chk.check(
+                                'C03.R8', f'{m.name}.{q}',
+                                f'{unparse(u)[:60]} [before any cut]',
+                                not late,
+                                'the body of the literal is cut (sliced / '
+                                're-assembled) while it is still escaped and '
+                                'un-escaped only afterwards: a cut between '
+                                'the two quotes of an escaped pair leaves '
+                                'one quote, which is escaped again into a '
+                                'pair - the "shorter" literal is the old '
+                                'one, an accepted no-op that is proposed '
+                                'forever', loc=m.loc(u), nontrivial=True)
                 chk.check('C03.R8', f'{m.name}.{q}', c, verdict != 'escaped',
                           'the text that is escaped here still is the '
                           f'escaped body of a string literal ({why}): its '
@@ -1162,6 +1185,58 @@ def rule_r8(chk, prog):
                           'forever', loc=m.loc(c), nontrivial=True,
                           argument=f'{verdict}: {why}')
     chk.floor('C03.R8', 'escaping sites in the mutators', n, 1)
+
+
+def _cut_before_unescape(m, f, e, depth, seen, cut=False):
+    """Does the text expression ``e`` derive from the (escaped) body of a
+    literal through a slice or a concatenation?  Un-escaping it then comes
+    too late: the cut may have split an escaped pair."""
+    if depth > 8:
+        return False
+    if isinstance(e, ast.Subscript) and isinstance(e.slice, ast.Slice):
+        base = e.value
+        if isinstance(base, ast.Attribute) and base.attr == 'data':
+            base = base.value
+        if isinstance(base, ast.Name) and base.id in params_of(f) and \
+                base.id in ('node', 'n', 'term'):
+            return cut
+        return _cut_before_unescape(m, f, e.value, depth + 1, seen, True)
+    if isinstance(e, ast.BinOp) and isinstance(e.op, ast.Add):
+        return _cut_before_unescape(m, f, e.left, depth + 1, seen, True) or \
+            _cut_before_unescape(m, f, e.right, depth + 1, seen, True)
+    if isinstance(e, ast.Name):
+        key = (id(f), e.id, cut)
+        if key in seen:
+            return False
+        seen = seen | {key}
+        if e.id in params_of(f):
+            idx = params_of(f).index(e.id)
+            off = 1 if getattr(f, '_class', None) is not None else 0
+            for q2, f2 in m.funcs.items():
+                for c2 in calls_in(f2):
+                    if isinstance(c2.func, ast.Attribute) and \
+                            f._qualname.endswith('.' + c2.func.attr) or (
+                                isinstance(c2.func, ast.Name)
+                                and c2.func.id == f.name):
+                        if 0 <= idx - off < len(c2.args) and \
+                                _cut_before_unescape(m, f2,
+                                                     c2.args[idx - off],
+                                                     depth + 1, seen, cut):
+                            return True
+            return False
+        for st in ast.walk(f):
+            if isinstance(st, ast.Assign) and any(
+                    isinstance(t, ast.Name) and t.id == e.id
+                    for t in st.targets) and _cut_before_unescape(
+                        m, f, st.value, depth + 1, seen, cut):
+                return True
+        return False
+    if isinstance(e, ast.Call) and isinstance(e.func, ast.Attribute):
+        if e.func.attr == 'replace' and len(e.args) == 2 and is_const(
+                e.args[0], '""') and is_const(e.args[1], '"'):
+            return False  # un-escaped before: cuts after it are fine
+        return _cut_before_unescape(m, f, e.func.value, depth + 1, seen, cut)
+    return False
 
 
 def _unescaped_source(m, f, e, depth, seen):
